@@ -205,6 +205,59 @@ def check(chk: Check) -> None:
 
     _r3(chk, R3, g, lm)
     _r4(chk, R4, g, lm, TP, sf)
+    _r6(chk, g, T, sf)
+
+
+def _r6(chk: Check, g, T, sf) -> None:
+    """Bounded decision of `derivable => accepted`: every token string the grammar derives up to a length bound is
+    driven through the automaton (a query on two static artefacts; nothing is lexed, no action runs)."""
+    R6 = chk.rule('C06.R6', 'derivable implies accepted, exhaustively up to a length bound: every token string the grammar '
+                            'derives (quick: length <= 5 over the full alphabet; thorough: also length <= 6 over one '
+                            'representative per class of interchangeable terminals) is accepted by the automaton, or rejected '
+                            'only through precedence entries of the operator table (never through a default or definition-order resolution)', floor=1)
+    runs = [('full alphabet, length <= 5', 5, None)]
+    if chk.tier == 'thorough':
+        rep = lalr.terminal_classes(g)
+        only = set(rep.values())
+        runs.append(('%d representative terminals of %d, length <= 6' % (len(only), len(rep)), 6, only))
+    stats = []
+    groups: Dict[Tuple, Tuple[Tuple[str, ...], str]] = {}
+    for label, L, only in runs:
+        S = lalr.sentences(g, L, only)
+        n_acc = n_na = 0
+        for sent in S:
+            ok, seen = lalr.run_decisions(T, list(sent))
+            if ok:
+                n_acc += 1
+                continue
+            # a rejection is dictated by the operator table when the run consulted only precedence-resolved decisions
+            # (which R1 has compared with the table) and at least one of them; a default- or order-resolved decision on
+            # the way means the grammar's sentence was cut off by PLY's tie-breaking, not by the published table
+            def dictated(d):
+                if d.by == 'precedence':
+                    return True
+                if d.by == 'default' and d.kind == 'sr':
+                    exp, _ = expected_action(sf, g.productions[d.prod], d.token)
+                    return exp is not None and exp == d.result      # greedy tail / index-vs-slice: the statement prescribes them
+                return False
+            if any(d.by == 'precedence' for d in seen) and all(dictated(d) for d in seen):
+                n_na += 1
+            else:
+                why = lalr.simulate(T, list(sent))[1]
+                st, la = lalr.stuck_state(T, list(sent))
+                kernel = tuple(sorted('%s -> %s . %s' % (g.productions[pi].lhs, ' '.join(g.productions[pi].rhs[:d]), ' '.join(g.productions[pi].rhs[d:]))
+                                      for pi, d in T.kernels[st]))
+                key = (kernel, la)
+                cur = groups.get(key)
+                if cur is None or (len(sent), sent) < (len(cur[0]), cur[0]):
+                    groups[key] = (sent, why)
+        stats.append({'run': label, 'sentences': len(S), 'accepted': n_acc, 'rejected_by_precedence': n_na})
+        chk.ok(R6, 'sentences: ' + label, g.module.rel, '%d derivable token strings: %d accepted, %d rejected because a precedence entry '
+               'of the operator table (checked by R1) decided against the only derivation - e.g. a < b < c, del -x[i]' % (len(S), n_acc, n_na))
+    chk.extra['bounded_language_check'] = stats
+    for (kernel, la), (sent, why) in sorted(groups.items(), key=lambda kv: kv[1][0]):
+        chk.bad(R6, 'derivable but rejected: after `%s` on lookahead %s' % (' ; '.join(kernel), la), g.module.rel,
+                'the grammar derives `%s` (and every sentence of this shape) but the automaton stops: %s' % (' '.join(sent), why))
 
 
 def _sibling_inlined(g, p: Production) -> bool:
